@@ -237,3 +237,23 @@ PROPS["C04"] = {
     "quick": [R("TestPropForwardedLine", 1500), R("TestPropRewriter", 20000)],
     "thorough": [R("TestPropForwardedLine", 12000, shards=12, timeout=2400), R("TestPropRewriter", 300000, shards=4, timeout=2400)],
 }
+
+PROPS["C11"] = {
+    "pkg": "c11", "level": "exploration",
+    "rule": ("rapid draws a real table with strict input validation, 0-2 blacklist entries and 0-2 rewriters chosen to match AGGREGATE names, 1-4 real "
+             "aggregations (mocked clock, writing into table.In like in production) from templates that are self-matching (output name matches the "
+             "rule's own filter), chained by name (A's output matches B, incl. a 3-cycle), match-everything, or produce names that strict validation "
+             "would reject; optional extra filter options; some drop-raw; 1-4 capture routes with filters; 1-2 rounds of 1-20 raw lines followed by "
+             "a tick of every aggregation (barriers: aggregator Snapshot, then sentinel pairs through table.In). Oracle = reference composition: raw "
+             "pipeline of C01 (drop-raw consumption by the complete filter) + reference aggregator of C10 per rule; aggregate lines are routed by "
+             "the reference filter on their NAME and never validated, blacklisted, rewritten or aggregated again: capture routes must hold exactly "
+             "raw survivors (in order) + aggregate outputs (multiset), counters in/invalid/blacklist/unroutable must match, and a further tick of "
+             "every rule after the flush must produce nothing (quiescence). Non-trivial: an emitted aggregate name matches some rule's complete "
+             "filter (self/chain feeding would fire), or a drop-raw rule whose cheap options pass while its regex/notRegex rejects. Distinct = hash(table, history)."),
+    "level_text": "Reference-composition property testing of the real table + real aggregators wired through table.In, with loop-prone rule sets generated on purpose; holds on all generated.",
+    "level_note": "Aggregator arithmetic and bucket timing are C10's subject (here every bucket is open when fed and closed by one far tick); only capture routes are attached.",
+    "technique": "property-based testing (rapid): reference composition (dispatcher model + aggregator model), quiescence invariant",
+    "assumptions": ["sentinel pairs through the unbuffered table.In are a completion barrier (one consumer goroutine)"],
+    "quick": [R("TestPropAggregateBypass", 2500)],
+    "thorough": [R("TestPropAggregateBypass", 20000, shards=16, timeout=2400)],
+}
